@@ -32,6 +32,15 @@ Theorem C02_hessian_pointwise : forall sh (e : expr R) (rho : env R) u v, Dom e 
   is_derive (fun y => coef (evalDual sh e (upd rho v y)) u) (rho v) (2 * coef2 (evalDual2 sh e rho) u v).
 Proof. exact hessian_pointwise. Qed.
 
+(* ... and therefore the Hessian read back IS the matrix of second partial derivatives: with
+   d_u f (rho') := Derive (fun x => f (rho'[u := x])) (rho' u), Coquelicot's total derivative operator,
+   the function y |-> d_u f (rho[v := y]) is differentiable at rho v with derivative 2 * dual2[u][v]
+   (needs the domain to be open along coordinates, which is proved: Dom_locally) *)
+Theorem C02_hessian_exact : forall sh (e : expr R) (rho : env R) u v, Dom e rho ->
+  is_derive (fun y => Derive (fun x => evalT e (upd (upd rho v y) u x)) (upd rho v y u)) (rho v)
+            (2 * coef2 (evalDual2 sh e rho) u v).
+Proof. exact hessian_exact. Qed.
+
 Example C02_example :
   let x := [120%Z] in let y := [121%Z] in
   let rho : env R := fun _ => 1 in
@@ -42,3 +51,4 @@ Print Assumptions C02_first_order_agrees.
 Print Assumptions C02_value_and_gradient.
 Print Assumptions C02_symmetric.
 Print Assumptions C02_hessian_pointwise.
+Print Assumptions C02_hessian_exact.
